@@ -123,6 +123,15 @@ fn run_group(w: &World, si: usize, seq: &[u8], parts: &[usize], only_n: Option<u
             }
             Outcome::Err(e) => dev = Some(("error", e.clone())),
         }
+        // the same run with printing switched off (DisplayOptions::print_result = false) consumes the same lines
+        if dev.is_none() && parts.len() == 1 && !is_agg {
+            evals += 1;
+            if let Outcome::Ok(fr) = sut::run_files(&w.tables, &st, &frefs, FileRunOpts { print_result: false, ..Default::default() }) {
+                if fr.result.is_ok() && fr.total_lines != expected_consumed {
+                    dev = Some(("consumption-differs-without-printing", format!("with printing off {} lines are consumed, expected {}", fr.total_lines, expected_consumed)));
+                }
+            }
+        }
         if let Some((d, msg)) = dev {
             // reducer: does the deviation need several files?
             let mut multifile = false;
